@@ -156,6 +156,10 @@ fn do_action(this: &Node, act: Act, target: u8) {
         Act::ClearSlot0 => {
             put(&this.s0, None);
         }
+        Act::ReleaseHeld => unsafe {
+            let h = HELD[target as usize % MAX_OBJ].take();
+            drop(h);
+        },
         Act::ResurrectIntoSelf => {
             if let Some(c) = crate::cc::verif_proofs::clone_from_registry(id) {
                 put(&this.s1, Some(c));
